@@ -265,9 +265,13 @@ register('C20', 'proof',
          'exists and now - ref.now >= period, the reference rolls over exactly then and on the first push. cpu_statistics: '
          'values in [0, 100] for non-decreasing counters, 0 when total = 0. io_statistics: only interfaces present in both '
          'samples with non-decreasing counters, rates >= 0 (reals). _push_cpu_stats: one point more per core, cut to depth.',
-         not_decided=['alignment / bound of the net_io, disk_io, disk_usage series (HostStatisticsInstance._push_timed_stats: '
-                      'four loops incl. a nested zip loop over aliased lists) - the function is only used through an ASSUMED '
-                      'frame contract (it does not write the times / mem / cpu lists); its body is NOT verified',
+         not_decided=['composition: HostStatisticsInstance.push_statistics still uses the ASSUMED frame contract of '
+                      '_push_timed_stats (contracts/c20.py); the body of _push_timed_stats is verified on its own '
+                      '(contracts/c20_timed.py, group statsmodel_timed: alignment / bound of every kept entity, vanished '
+                      'entities dropped, new entities start with one point, frame; decision facet for the first sight of an entity: '
+                      'contracts/c20_timed_new.py) under the precondition that the lists '
+                      'reachable from the history dictionary are distinct objects and that a known entity gets as many '
+                      'values as it has value series - push_statistics is not shown to establish them at its three calls',
                       'ProcStatisticsHolder.push_statistics / ProcStatisticsCompiler / HostStatisticsCompiler (pid 0 => entry '
                       'dropped, pid change => fresh histories, holder deleted when empty): need object construction inside '
                       'summarised dict comprehensions, not supported by the engine yet',
@@ -563,12 +567,18 @@ register('C19', 'proof',
          'mock ProcessStatus, its info_map, its running_identifiers and every per-instance payload of that map - is '
          'allocated by the constructor (so the writes of feed_model / start cannot reach a live status), that the live '
          'process is not modified, and structurally that the model classes override exactly the interacting methods with '
-         'bodies that never name the transport or the listener.',
+         'bodies that never name the transport or the listener. ProcessStartCommandModel.start (contracts/c19_model.py): '
+         'emits no effect at all (no request), writes only the sequence counter of the command, the running set of ITS '
+         'process (the mock) and the event list of the model, and every event it appends names that mock on the instance '
+         'of the command (so that the writes of feed_model land in the mock).',
          not_decided=['clause 2 (the predicted placement equals the placement of a real start): a relational property of two '
                       'executions on cloned clusters',
                       'the frame of the whole call tree of test_start_application / test_start_processes (store_application -> '
                       'resolve_rules writes the live rules; Starter.after is not overridden by the model and may call the real '
                       'stopper) is NOT under contract: only the model-object isolation is proved',
-                      'feed_model / StarterModel.next themselves (comprehensions over three nested plans)'],
+                      'StarterModel.next (comprehension over three nested plans); StarterModel.feed_model: the event loop is '
+                      'proved to write mocks only under an assumed abstraction of Commander.on_event, but the facet is PARKED '
+                      '(contracts/wip_c19_feed.txt): the engine cannot type the dict literals built by the comprehension of the '
+                      'return expression'],
          assumptions=['ProcessStatus contracts of C11'],
          extra='pyvc.structural_c19')
